@@ -26,7 +26,7 @@ Theorem C06_lfp_fixfree X T : nofsub T -> nofix T ->
     Den (bind empty X (bden r)) T (bden r) /\
     forall d e, Den (bind empty X d) T e -> dle e d -> dle (bden r) d.
 Proof.
-  intros Hns Hnf Hmono. apply C06_lfp; auto.
+  intros Hns Hnf Hmono. apply C06_lfp; auto; [apply nofsub_wf; exact Hns|].
   intros b _. destruct (nofix_total (replace_var X (FSub b) T) (size T) (nofix_replace X b T Hnf)) as (b' & Hb').
   - rewrite size_replace. lia.
   - eauto.
@@ -37,7 +37,7 @@ Theorem C06_gfp_fixfree X T : nofsub T -> nofix T ->
     Den (bind empty X (bden r)) T (bden r) /\
     forall d e, Den (bind empty X d) T e -> dle d e -> dle d (bden r).
 Proof.
-  intros Hns Hnf Hmono. apply C06_gfp; auto.
+  intros Hns Hnf Hmono. apply C06_gfp; auto; [apply nofsub_wf; exact Hns|].
   intros b _. destruct (nofix_total (replace_var X (FSub b) T) (size T) (nofix_replace X b T Hnf)) as (b' & Hb').
   - rewrite size_replace. lia.
   - eauto.
